@@ -6,6 +6,7 @@ export CARGO_NET_OFFLINE=true
 mkdir -p build evidence/replay
 cp /repo/Cargo.lock deps/astdeps/Cargo.lock
 ( cd deps/astdeps && CARGO_TARGET_DIR=../../build/astdeps-target cargo +1.98.1-x86_64-unknown-linux-gnu build --offline --quiet )
+python3 tools/gen_astspec.py
 cp /repo/Cargo.lock replay/Cargo.lock
 ( cd replay && CARGO_TARGET_DIR=../build/replay-target cargo build --offline --quiet )
 if [ -f kani/Cargo.toml ]; then
